@@ -148,7 +148,9 @@ def run_case(desc):
             stale = rng.choice(found)
         mode = 'delete_model'
     items, stats = [], {'projects': 1, 'mode_' + mode: 1}
-    proj = projlab.Project()
+    # every third case: the observed database is `other`, next to a
+    # fully installed `default` (projlab decoy mode)
+    proj = projlab.Project(decoy=desc.get('i', 0) % 3 == 1)
     case = {'spec': spec, 'mode': mode}
     nontrivial = False
     try:
@@ -348,6 +350,7 @@ def run_case(desc):
             set(before) - removed_tables - set(
                 t for t in before if t.startswith('django_')))
     finally:
+        stats['decoy_runs'] = proj.decoy_runs
         proj.cleanup()
     return {'key': S.canon([spec, case.get('removed_apps'),
                             case.get('deleted'), mode]),
